@@ -33,16 +33,17 @@ theorem admitSize_iff (f : Spec.Fifo) (sz : Nat) :
     Spec.admitSize f sz = true ↔ f.size ≤ sz ∧ sz ≤ f.maxsize := by
   simp only [Spec.admitSize]; simp only [decide_eq_true_eq]
 
-theorem write_refines {c : Cbuf} (hi : Inv c) (bs : List UInt8) :
-    Spec.write (abs c) bs (write c bs).2.2.size = some ((write c bs).1, (write c bs).2.1, abs (write c bs).2.2) ∧
-    Inv (write c bs).2.2 := by
+theorem write_refines {c : Cbuf} (hi : Inv c) (bs : List UInt8) (pol : Policy := chunkPolicy) [Admissible pol] :
+    Spec.write (abs c) bs (write c bs pol).2.2.size =
+      some ((write c bs pol).1, (write c bs pol).2.1, abs (write c bs pol).2.2) ∧
+    Inv (write c bs pol).2.2 := by
   by_cases h0 : bs.length = 0
   · simp [write, Spec.write, h0, hi]
   · have hpos : 0 < bs.length := by omega
-    obtain ⟨hg, hcore⟩ := writer_ok hi bs.length hpos (.mem bs) (by simp [Src.ok])
+    obtain ⟨hg, hcore⟩ := writer_ok hi bs.length hpos (.mem bs) (by simp [Src.ok]) pol
     simp only [write, h0, if_false]
-    generalize hr : writer c bs.length (.mem bs) = r at hcore
-    generalize hc1 : (maybeGrow c bs.length).1 = c1 at hg hcore
+    generalize hr : writer c bs.length (.mem bs) pol = r at hcore
+    generalize hc1 : (maybeGrow c bs.length pol).1 = c1 at hg hcore
     have hu := hg.inv.used
     have hadm : Spec.admitSize (abs c) c1.size = true := by
       have := hg.sizeLo; have := hg.inv.smax; have := hg.maxsize
@@ -122,10 +123,12 @@ theorem take_min_length (l : List UInt8) (n : Nat) : l.take (min n l.length) = l
   · rw [Nat.min_eq_left h]
   · rw [Nat.min_eq_right (by omega), List.take_length, List.take_of_length_le (by omega)]
 
-theorem writeFromFd_refines {c : Cbuf} (hi : Inv c) (len : Int) (avail : List UInt8) (eof : Bool) :
-    Spec.writeFromFd (abs c) len avail eof (writeFromFd c len avail eof).1 (writeFromFd c len avail eof).2.2.size =
-      some ((writeFromFd c len avail eof).1, (writeFromFd c len avail eof).2.1, abs (writeFromFd c len avail eof).2.2) ∧
-    Inv (writeFromFd c len avail eof).2.2 := by
+theorem writeFromFd_refines {c : Cbuf} (hi : Inv c) (len : Int) (avail : List UInt8) (eof : Bool)
+    (pol : Policy := chunkPolicy) [Admissible pol] :
+    Spec.writeFromFd (abs c) len avail eof (writeFromFd c len avail eof pol).1 (writeFromFd c len avail eof pol).2.2.size =
+      some ((writeFromFd c len avail eof pol).1, (writeFromFd c len avail eof pol).2.1,
+        abs (writeFromFd c len avail eof pol).2.2) ∧
+    Inv (writeFromFd c len avail eof pol).2.2 := by
   have hchunk : 0 < Gen.CBUF_CHUNK := by decide
   have hsp := hi.spos
   by_cases hneg : len < -1
@@ -141,9 +144,9 @@ theorem writeFromFd_refines {c : Cbuf} (hi : Inv c) (len : Int) (avail : List UI
       intro h; rw [← hl]; split <;> omega
     by_cases hlpos : l > 0
     · simp only [hlpos, if_true]
-      obtain ⟨hg, hcore⟩ := writer_ok hi l hlpos (.fd avail eof) trivial
-      generalize hr : writer c l (.fd avail eof) = r at hcore
-      generalize hc1 : (maybeGrow c l).1 = c1 at hg hcore
+      obtain ⟨hg, hcore⟩ := writer_ok hi l hlpos (.fd avail eof) trivial pol
+      generalize hr : writer c l (.fd avail eof) pol = r at hcore
+      generalize hc1 : (maybeGrow c l pol).1 = c1 at hg hcore
       have hu := hg.inv.used
       have hadm : Spec.admitSize (abs c) c1.size = true := by
         have := hg.sizeLo; have := hg.inv.smax; have := hg.maxsize
